@@ -68,6 +68,15 @@ func VerifC15_WriteValidation() {
 			Routes: []structs.ServiceRoute{{Match: &structs.ServiceRouteMatch{HTTP: &structs.ServiceRouteHTTPMatch{PathPrefix: "/v2"}},
 				Destination: &structs.ServiceRouteDestination{Service: "other", ServiceSubset: "v2"}}}})
 	}
+	// main may also refer to other through its resolver only (redirect to a subset, or failover)
+	switch verifrt.Choice("main.resolver", 3) {
+	case 1:
+		try(&structs.ServiceResolverConfigEntry{Kind: structs.ServiceResolver, Name: "main",
+			Redirect: &structs.ServiceResolverRedirect{Service: "other", ServiceSubset: "v2"}})
+	case 2:
+		try(&structs.ServiceResolverConfigEntry{Kind: structs.ServiceResolver, Name: "main",
+			Failover: map[string]structs.ServiceResolverFailover{"*": {Service: "other"}}})
+	}
 	verifrt.Assert("C15.stored-chains-compile-before", vCompiles(s, "main") && vCompiles(s, "other"))
 
 	_, beforeDefaults, _ := s.ConfigEntry(nil, structs.ServiceDefaults, "other", nil)
